@@ -132,6 +132,19 @@ def dynamic(cx, meta, targets, boost_deferred=False):
             hists.append(c05_hist.line(hid, "eager", c05_hist.gen_history(rng, hid, "eager", rng.choice([8, 14, 24]), targets[k % len(targets)], avoid_known=avoid)))
     run_histories(cx, c05_hist, exe, hists)
     deferred(cx, c05_hist, exe, boost_deferred)
+    # assignment between relatives (Manifold and CrossSection), unobserved unless looked at
+    rng2 = random.Random(cx.seed * 3571 + 77)
+    ah = []
+    for k in range(cx.pick(300, 5000)):
+        ah.append(c05_hist.line("a%d" % (k + 1), "lazy0" if k % 4 else "lazy", c05_hist.gen_assign(rng2, k, rng2.choice([10, 18, 30, 50]))))
+    before = dict(cx.cov)
+    run_histories(cx, c05_hist, exe, ah)
+    cx.cov["assignment_histories"] = {"histories": len(ah), "oracle_failures": cx.cov.get("oracle_failures"),
+                                      "rule": "x = y, x = x, x = move(y) between lazy-transform relatives and copies of Manifolds and CrossSections; "
+                                              "afterwards x hashes like y and y never changes"}
+    for k_ in ("evaluations", "distinct_nontrivial", "steps", "rule", "distribution", "oracle_failures", "history_wall_s"):
+        if k_ in before:
+            cx.cov[k_] = before[k_] + (len(ah) if k_ == "evaluations" else 0) if k_ in ("evaluations",) else before[k_]
     impl_level(cx, c05_hist, exe, meta, targets)
 
 
